@@ -6,8 +6,8 @@
    Memory exhaustion, stack depth and wall-clock time are outside the model. *)
 From Coq Require Import ZArith.
 From TW Require Import Wrap Refill Columns.
-From TW Require Import Custom.
-From TW Require Import Partition Bellman SplitBreak InplaceFacts UnfillFacts ColumnsFacts Pipeline.
+From TW Require Import Custom WrapSmawk.
+From TW Require Import Partition Bellman SplitBreak InplaceFacts UnfillFacts ColumnsFacts Pipeline SmawkShape.
 
 Theorem C04_fill_inplace : forall (cw : char -> N) text w, exists t', fill_inplace cw text w = Some t'.
 Proof. exact fill_inplace_some. Qed.
@@ -53,6 +53,21 @@ Theorem C04_wrap_fill_reference : forall cw alnum lbc o text,
   wrap cw alnum lbc custom3 ofit_dp o text <> None /\ fill cw alnum lbc custom3 ofit_dp o text <> None.
 Proof. intros. split; [apply wrap_total_reference|apply fill_total_reference]. Qed.
 
+(* with the executable model of the smawk crate in place of the oracle: none of the crate's
+   assert!s or index operations can fail (for every Num), so wrap and fill with the
+   optimal-fit algorithm never fail either *)
+Theorem C04_smawk_total : forall (Nm : Num) eqT P (fs : list (frag Nm)) lws,
+  smawk_minima Nm eqT P fs lws <> None.
+Proof. exact smawk_minima_total. Qed.
+
+Theorem C04_wrap_fill_smawk : forall cw alnum lbc o text,
+  wrap cw alnum lbc custom3 ofit_smawk o text <> None /\ fill cw alnum lbc custom3 ofit_smawk o text <> None.
+Proof.
+  intros. split; [apply wrap_total|apply fill_total]; try exact ofit_smawk_ok; exact custom3_splitter_ok.
+Qed.
+
+Print Assumptions C04_smawk_total.
+Print Assumptions C04_wrap_fill_smawk.
 Print Assumptions C04_wrap_fill.
 Print Assumptions C04_wrap_fill_reference.
 Print Assumptions C04_fill_inplace.
